@@ -23,14 +23,14 @@ var prefixes = []string{"a", "b", "ab", ":"}
 // static in-segment prefix. Wildcards are named after their depth so that most
 // generated sets are conflict-free.
 func Seg(t *rapid.T, depth int) string {
-	k := rapid.IntRange(0, 9).Draw(t, "kind")
+	k := IntR(t, 0, 9, "kind")
 	pre := ""
-	if rapid.IntRange(0, 3).Draw(t, "pre") == 0 {
-		pre = rapid.SampledFrom(prefixes).Draw(t, "prefix")
+	if IntR(t, 0, 3, "pre") == 0 {
+		pre = Pick(t, prefixes, "prefix")
 	}
 	switch {
 	case k <= 4:
-		return rapid.SampledFrom(Statics).Draw(t, "st")
+		return Pick(t, Statics, "st")
 	case k <= 7:
 		return fmt.Sprintf("%s{p%d%s}", pre, depth, pre)
 	default:
@@ -42,7 +42,7 @@ func isCatch(seg string) bool { return strings.Contains(seg, "*{") }
 
 // Path draws a path pattern of 0..maxSegs segments.
 func Path(t *rapid.T, maxSegs int) string {
-	n := rapid.IntRange(0, maxSegs).Draw(t, "nseg")
+	n := IntR(t, 0, maxSegs, "nseg")
 	var sb strings.Builder
 	prevCatch := false
 	for i := 0; i < n; i++ {
@@ -54,7 +54,7 @@ func Path(t *rapid.T, maxSegs int) string {
 		sb.WriteByte('/')
 		sb.WriteString(s)
 	}
-	if n == 0 || rapid.IntRange(0, 3).Draw(t, "ts") == 0 {
+	if n == 0 || IntR(t, 0, 3, "ts") == 0 {
 		sb.WriteByte('/')
 	}
 	return sb.String()
@@ -65,19 +65,19 @@ var HostLabels = []string{"a", "b", "ab", "com", "example"}
 
 // Host draws a hostname pattern ("" = path-only with probability pNone/ (pNone+1)).
 func Host(t *rapid.T, noneWeight int) string {
-	if rapid.IntRange(0, noneWeight).Draw(t, "hashost") != 0 {
+	if IntR(t, 0, noneWeight, "hashost") != 0 {
 		return ""
 	}
-	n := rapid.IntRange(1, 3).Draw(t, "nlab")
+	n := IntR(t, 1, 3, "nlab")
 	var labs []string
 	for i := 0; i < n; i++ {
-		switch rapid.IntRange(0, 3).Draw(t, "lk") {
+		switch IntR(t, 0, 3, "lk") {
 		case 0:
 			labs = append(labs, fmt.Sprintf("{h%d}", i))
 		case 1:
 			labs = append(labs, fmt.Sprintf("a{g%d}", i))
 		default:
-			labs = append(labs, rapid.SampledFrom(HostLabels).Draw(t, "lab"))
+			labs = append(labs, Pick(t, HostLabels, "lab"))
 		}
 	}
 	return strings.Join(labs, ".")
@@ -87,10 +87,10 @@ func Host(t *rapid.T, noneWeight int) string {
 // pattern already in pool (cut at a segment boundary, or at an arbitrary byte
 // when byteCut is set), which is what makes routes share and split radix nodes.
 func Pattern(t *rapid.T, pool []string, hostNoneWeight int, byteCut bool) string {
-	if len(pool) > 0 && rapid.IntRange(0, 9).Draw(t, "extend") < 6 {
-		base := rapid.SampledFrom(pool).Draw(t, "base")
+	if len(pool) > 0 && IntR(t, 0, 9, "extend") < 6 {
+		base := Pick(t, pool, "base")
 		if byteCut {
-			cut := rapid.IntRange(0, len(base)).Draw(t, "cut")
+			cut := IntR(t, 0, len(base), "cut")
 			tail := strings.TrimPrefix(Path(t, 3), "/")
 			return base[:cut] + tail
 		}
@@ -100,7 +100,7 @@ func Pattern(t *rapid.T, pool []string, hostNoneWeight int, byteCut bool) string
 			if len(segs) == 1 && segs[0] == "" {
 				segs = nil
 			}
-			keep := rapid.IntRange(0, len(segs)).Draw(t, "keep")
+			keep := IntR(t, 0, len(segs), "keep")
 			var sb strings.Builder
 			sb.WriteString(base[:he])
 			prevCatch := false
@@ -109,7 +109,7 @@ func Pattern(t *rapid.T, pool []string, hostNoneWeight int, byteCut bool) string
 				sb.WriteString(segs[k])
 				prevCatch = isCatch(segs[k])
 			}
-			extra := rapid.IntRange(0, 3).Draw(t, "extra")
+			extra := IntR(t, 0, 3, "extra")
 			for k := 0; k < extra; k++ {
 				s := Seg(t, keep+k)
 				if prevCatch && strings.HasPrefix(s, "*") {
@@ -144,7 +144,7 @@ func Instantiate(t *rapid.T, pat string) (host, path string) {
 		switch {
 		case pat[i] == '{':
 			e := i + strings.IndexByte(pat[i:], '}')
-			v := rapid.SampledFrom(Values).Draw(t, "pv")
+			v := Pick(t, Values, "pv")
 			if i < hostEnd {
 				v = strings.NewReplacer(".", "", "*", "s", "{", "b", "}", "b", ":", "c").Replace(v)
 			}
@@ -152,10 +152,10 @@ func Instantiate(t *rapid.T, pat string) (host, path string) {
 			i = e + 1
 		case pat[i] == '*' && i+1 < len(pat) && pat[i+1] == '{':
 			e := i + strings.IndexByte(pat[i:], '}')
-			n := rapid.IntRange(1, 3).Draw(t, "cn")
+			n := IntR(t, 1, 3, "cn")
 			var vs []string
 			for k := 0; k < n; k++ {
-				vs = append(vs, rapid.SampledFrom(Values).Draw(t, "cv"))
+				vs = append(vs, Pick(t, Values, "cv"))
 			}
 			sb.WriteString(strings.Join(vs, "/"))
 			i = e + 1
@@ -176,7 +176,7 @@ func Instantiate(t *rapid.T, pat string) (host, path string) {
 // segment, append a byte. The result never contains an empty segment.
 func MutatePath(t *rapid.T, path string) string {
 	out := path
-	switch rapid.IntRange(0, 8).Draw(t, "mut") {
+	switch IntR(t, 0, 8, "mut") {
 	case 0, 1:
 		if strings.HasSuffix(path, "/") && len(path) > 1 {
 			out = path[:len(path)-1]
@@ -184,14 +184,14 @@ func MutatePath(t *rapid.T, path string) string {
 			out = path + "/"
 		}
 	case 2:
-		out = strings.TrimSuffix(path, "/") + "/" + rapid.SampledFrom(Values).Draw(t, "extra")
+		out = strings.TrimSuffix(path, "/") + "/" + Pick(t, Values, "extra")
 	case 3:
 		if i := strings.LastIndexByte(strings.TrimSuffix(path, "/"), '/'); i > 0 {
 			out = path[:i]
 		}
 	case 4:
 		if !strings.HasSuffix(path, "/") {
-			out = path + rapid.SampledFrom([]string{"a", "b", "x"}).Draw(t, "tail")
+			out = path + Pick(t, []string{"a", "b", "x"}, "tail")
 		}
 	}
 	if strings.Contains(out, "//") || out == "" {
@@ -203,7 +203,7 @@ func MutatePath(t *rapid.T, path string) string {
 // MutateHost perturbs a request host: exact, with port, trailing dot, extended on
 // either side by labels or characters, truncated, unrelated, IP literals, empty.
 func MutateHost(t *rapid.T, host string) string {
-	switch rapid.IntRange(0, 15).Draw(t, "hm") {
+	switch IntR(t, 0, 15, "hm") {
 	case 0:
 		return "zz.org"
 	case 1:
@@ -235,7 +235,7 @@ func MutateHost(t *rapid.T, host string) string {
 			return host + ".:443"
 		}
 	case 10:
-		return rapid.SampledFrom([]string{"127.0.0.1", "127.0.0.1:80", "[::1]:8080", "10.1.2.3"}).Draw(t, "ip")
+		return Pick(t, []string{"127.0.0.1", "127.0.0.1:80", "[::1]:8080", "10.1.2.3"}, "ip")
 	case 11:
 		return ""
 	case 12:
